@@ -47,7 +47,8 @@ BOUND = {"quick": 5, "thorough": 6}
 PREFIXES = ["%define ", "%import ", "%include ", "<a ", "</", "k ", "%"]
 POOL_QUICK = ["", "k v", "<a>", "</a>", "<a b/>", "%define n v", "k $n",
               "</b>", "<A B>", "(k) v", "%include f", "# c"]
-POOL_QUICK = POOL_QUICK + ["</a b>", "%include $(ZCV_EMPTY)"]
+POOL_QUICK = POOL_QUICK + ["</a b>", "%include $(ZCV_EMPTY)",
+                           "%key_value k v", "%directive import p"]
 POOL_THOROUGH = POOL_QUICK + [
     "</a/>", "</a  >", "k $(ZCV_EMPTY)", "%import $(ZCV_EMPTY)",
     " ", "k", "K  v w ", "k (v)", "k(v", "<a  B >", "< a>", "<a b c>",
@@ -55,6 +56,9 @@ POOL_THOROUGH = POOL_QUICK + [
     "%define n $n", "%Define n v", "%import p", "%import", "%foo x", "k $",
 ]
 RANDOM = {"quick": 3000, "thorough": 200000}
+FOLD_PAIRS = [("straße", "strasse"), ("ς", "σ"), ("ﬁle", "file"),
+              ("ſ", "s"), ("maſt", "mast"), ("İx", "i̇x"), ("ǅ", "ǆ"),
+              ("ß", "ss"), ("é", "e")]
 
 
 def shards(tier):
@@ -266,7 +270,10 @@ def enum_lines(ctx, bound, salt):
 _RAND_LINES = [
     "k v", "key  some value ", "k", "a-b.c 1", "k $$x", "k ${n}y", "k $n",
     "k $(ZCV_ENV)", "k $(ZCV_EMPTY)", "%include $(ZCV_EMPTY)",
-    "%import $(ZCV_EMPTY)", "</a b>", "</sec-t x>", "k (paren)", "k v (x) ", "# comment", "", "   ",
+    "%import $(ZCV_EMPTY)", "</a b>", "</sec-t x>", "k (paren)",
+    "%key_value k v", "%directive define n v", "%define_ n v", "%error x",
+    "%replace x", "%parse x", "%start_section a", "%end_section a",
+    "%nextline x", "%_normalize_case x", "%__init__ x", "k v (x) ", "# comment", "", "   ",
     "\tk\tv", "k v", "%import some.pkg", "%define n v w",
     "%define M $n$n", "%include f.conf", "%define", "%import", "%bogus x",
     "(k v", ")", "k)", "<>", "< a>", "<a b c>", "<a (b)>", "</>", "k $",
@@ -341,6 +348,18 @@ def run_shard(ctx):
     for s in enum_lines(ctx, bound - 2, 11):
         check_text(ctx, "<a>\nk v\n</a" + s + "\n", "closer")
         check_text(ctx, "<b>\n<a>\n</a" + s + "\n</b>\n", "closer")
+    # closers that equal the open type only under case *folding*
+    # (lower-casing is what the grammar says): must be mismatches
+    idx = 0
+    for o, cl in FOLD_PAIRS:
+        for a, b in ((o, cl), (cl, o), (o, o.upper()), (o.upper(), o)):
+            for name in ("", " n1"):
+                idx += 1
+                if ctx.mine(idx):
+                    check_text(ctx, "<%s%s>\nk v\n</%s>\n" % (a, name, b),
+                               "fold")
+                    check_text(ctx, "<x>\n<%s%s/>\n</x>\n<%s>\n</%s>\n"
+                               % (a, name, a, b), "fold")
     # (b) pooled sequences
     pool = POOL_QUICK if ctx.quick else POOL_THOROUGH
     maxlines = 3 if ctx.quick else 4
